@@ -20,6 +20,13 @@
 //!    in the JIT module, with the struct that owns the pointee after
 //!    `ModuleBuilder::finalize` (JIT module / `ModuleData` / `Module<Ctx>` =
 //!    the package / nobody).
+//!  * the statements of `Drop for RotoConstant::drop` in order, each with the
+//!    size class of constants it runs for (`if self.size == 0 { return; }` …):
+//!    whether the constant's drop function runs must not depend on the size of
+//!    its type;
+//!  * how `ModuleData`'s keep-alive collection of registered functions is
+//!    keyed: a `Vec` that is pushed to holds every `Arc`, a map keyed by
+//!    `TypeId` with insert-if-absent holds one per Rust type.
 //! Shapes that are not recognised are extraction failures, never defaults.
 #[allow(unused_imports)]
 use super::{Gen, Target};
@@ -411,7 +418,11 @@ fn data_holders(cg: &syn::File, all: &ImplFns, notes: &mut Vec<String>) -> Resul
             // a table of raw pointers: who owns the pointees?
             if f == "runtime_functions"
                 && codegen_txt.contains("letptr=&rawconst**arc_boxas*constu8;")
-                && codegen_txt.contains("module.registered_fns.push(arc_box);")
+                // the Arc is handed to the builder's keep-alive collection (whether the collection then holds
+                // EVERY Arc it is handed is the separate fact `fnsKeep`)
+                && (codegen_txt.contains("module.registered_fns.push(arc_box);")
+                    || codegen_txt.contains("module.registered_fns.entry(") && codegen_txt.contains(").or_insert(arc_box);")
+                    || codegen_txt.contains("module.registered_fns.insert(") && codegen_txt.contains(",arc_box);"))
                 && codegen_txt.contains("module.runtime_functions.insert(*func_ref,(ptr,func_id));")
             {
                 return route("registered_fns");
@@ -560,6 +571,118 @@ fn data_holders(cg: &syn::File, all: &ImplFns, notes: &mut Vec<String>) -> Resul
     Ok(out)
 }
 
+// ---------------------------------------------------------------- Drop for RotoConstant
+
+fn has_cfg_verif_hooks(attrs: &[syn::Attribute]) -> bool {
+    attrs.iter().any(|a| a.path().is_ident("cfg") && norm(a).contains("verif-hooks"))
+}
+
+/// `self.size == 0`-like conditions → the size class for which they hold ("ifZst" / "ifSized")
+fn size_guard(cond: &syn::Expr) -> Result<&'static str, String> {
+    let c = norm(cond);
+    let c = c.trim_start_matches('(').trim_end_matches(')');
+    for subject in ["self.size", "layout.size()", "size"] {
+        if let Some(rest) = c.strip_prefix(subject) {
+            return match rest {
+                "==0" | "<1" => Ok("ifZst"),
+                "!=0" | ">0" | ">=1" => Ok("ifSized"),
+                _ => Err(format!("Drop for RotoConstant: condition `{c}` is not a test of the constant's size against 0")),
+            };
+        }
+    }
+    Err(format!("Drop for RotoConstant: condition `{c}` is not a test of the constant's size against 0"))
+}
+
+fn negate_guard(g: &'static str) -> &'static str {
+    match g {
+        "ifZst" => "ifSized",
+        "ifSized" => "ifZst",
+        other => other,
+    }
+}
+
+/// The statements of `RotoConstant::drop`, flattened: (guard, act) in order.
+fn const_drop_stmts(stmts: &[syn::Stmt], guard: &'static str, out: &mut Vec<(&'static str, &'static str)>) -> Result<(), String> {
+    for st in stmts {
+        match st {
+            syn::Stmt::Local(l) => {
+                if has_cfg_verif_hooks(&l.attrs) {
+                    continue;
+                }
+                let t = norm(l);
+                if t.contains("drop_fn") || t.contains("dealloc") || t.contains("return") {
+                    return Err(format!("Drop for RotoConstant: a `let` that drops, frees or returns: `{t}`"));
+                }
+            }
+            syn::Stmt::Expr(e, _) => const_drop_expr(e, guard, out)?,
+            syn::Stmt::Item(_) => {}
+            syn::Stmt::Macro(m) => {
+                if has_cfg_verif_hooks(&m.attrs) {
+                    continue;
+                }
+                let name = norm(&m.mac.path);
+                if !(name.starts_with("debug_assert") || name.starts_with("assert")) {
+                    return Err(format!("Drop for RotoConstant: macro statement `{name}!` is not modelled"));
+                }
+            }
+        }
+    }
+    Ok(())
+}
+
+fn const_drop_expr(e: &syn::Expr, guard: &'static str, out: &mut Vec<(&'static str, &'static str)>) -> Result<(), String> {
+    match e {
+        syn::Expr::Unsafe(u) => {
+            if has_cfg_verif_hooks(&u.attrs) {
+                return Ok(());
+            }
+            const_drop_stmts(&u.block.stmts, guard, out)
+        }
+        syn::Expr::Block(b) => {
+            if has_cfg_verif_hooks(&b.attrs) {
+                return Ok(());
+            }
+            const_drop_stmts(&b.block.stmts, guard, out)
+        }
+        syn::Expr::Paren(p) => const_drop_expr(&p.expr, guard, out),
+        syn::Expr::Return(r) => {
+            if r.expr.is_some() {
+                return Err("Drop for RotoConstant: `return <value>`".into());
+            }
+            out.push((guard, "ret"));
+            Ok(())
+        }
+        syn::Expr::If(i) => {
+            if has_cfg_verif_hooks(&i.attrs) {
+                return Ok(());
+            }
+            if guard != "always" {
+                return Err("Drop for RotoConstant: nested conditions are not modelled".into());
+            }
+            let g = size_guard(&i.cond)?;
+            const_drop_stmts(&i.then_branch.stmts, g, out)?;
+            if let Some((_, els)) = &i.else_branch {
+                const_drop_expr(els, negate_guard(g), out)?;
+            }
+            Ok(())
+        }
+        other => {
+            let t = norm(other);
+            if t == "(self.drop_fn)(self.ptr)" {
+                out.push((guard, "callDropFn"));
+                Ok(())
+            } else if (t.starts_with("std::alloc::dealloc(") || t.starts_with("alloc::dealloc(") || t.starts_with("dealloc("))
+                && t.contains("self.ptr")
+            {
+                out.push((guard, "dealloc"));
+                Ok(())
+            } else {
+                Err(format!("Drop for RotoConstant: statement `{t}` is not modelled"))
+            }
+        }
+    }
+}
+
 /// a type built only from std containers and scalars: dropping it runs no user or script code
 fn is_plain_data(ty: &str) -> bool {
     const OK: &[&str] = &[
@@ -599,6 +722,9 @@ fn lifetime(repo: &Path) -> Result<String, String> {
             "HashMap<ResolvedName,ConstantValue>" => "constants",
             "HashMap<ResolvedName,RotoConstant>" => "rotoConstants",
             "Vec<Arc<Box<dynAny>>>" => "registeredFns",
+            // a map from the Rust type of the registered function to its `Arc`: drops like the Vec, but
+            // holds at most one entry per key (see `fnsKeep` below)
+            "HashMap<TypeId,Arc<Box<dynAny>>>" | "BTreeMap<TypeId,Arc<Box<dynAny>>>" => "registeredFns",
             "JITModuleWrapper" => "jit",
             other if is_plain_data(other) => "plain",
             other => {
@@ -625,10 +751,20 @@ fn lifetime(repo: &Path) -> Result<String, String> {
     if wrapper.len() != 1 || wrapper[0].1 != "ManuallyDrop<JITModule>" {
         return Err(format!("JITModuleWrapper is not `(ManuallyDrop<JITModule>)`: {wrapper:?}"));
     }
-    // RotoConstant::drop calls the JIT-compiled drop function
+    // RotoConstant::drop: which statements run for which size class of constant
     let rc_drop = find::func(&cg, "drop", Some("Drop for RotoConstant"))?;
-    if !norm(&rc_drop.block).contains("(self.drop_fn)(self.ptr)") {
+    let mut const_drop: Vec<(&'static str, &'static str)> = vec![];
+    const_drop_stmts(&rc_drop.block.stmts, "always", &mut const_drop)?;
+    if !const_drop.iter().any(|(_, a)| *a == "callDropFn") {
         return Err("Drop for RotoConstant no longer calls `(self.drop_fn)(self.ptr)`".into());
+    }
+    notes.push(format!(
+        "Drop for RotoConstant: {}",
+        const_drop.iter().map(|(g, a)| format!("{a}[{g}]")).collect::<Vec<_>>().join("; ")
+    ));
+    let rc_fields = find::struct_fields(&cg, "RotoConstant")?;
+    if !rc_fields.iter().any(|(n, t)| n == "size" && t == "usize") {
+        return Err("RotoConstant has no `size: usize` field".into());
     }
 
     // ---- 2. the handle owns the Arc
@@ -757,10 +893,26 @@ fn lifetime(repo: &Path) -> Result<String, String> {
         notes.push("registered constants are not (all) cloned into ModuleData".into());
     }
     let pointer = find::func(&rf, "pointer", Some("FunctionDescription"))?;
+    // how the keep-alive collection is filled: `push` on a Vec keeps every Arc; insert-if-absent / insert
+    // into a map keyed by TypeId keeps one Arc per Rust type
+    let fns_field_ty = fields
+        .iter()
+        .zip(&lean_fields)
+        .find(|(_, k)| **k == "registeredFns")
+        .map(|((_, t), _)| t.clone())
+        .unwrap_or_default();
+    let (fns_inserted, fns_keep) = if fns_field_ty.starts_with("Vec<") {
+        (codegen.contains("module.registered_fns.push(arc_box);"), "perArc")
+    } else {
+        let keyed = codegen.contains("module.registered_fns.entry(") && codegen.contains(").or_insert(arc_box);")
+            || codegen.contains("module.registered_fns.insert(") && codegen.contains(",arc_box);");
+        (keyed, "perRustType")
+    };
+    notes.push(format!("ModuleData's registered-function collection `{fns_field_ty}` ↦ KeepKey.{fns_keep}"));
     let fns_cloned = moved("registeredFns", "registered_fns")
         && norm(find::tail_expr(&pointer.block)?) == "self.pointer.clone()"
         && codegen.contains("letarc_box=f.func.pointer();")
-        && codegen.contains("module.registered_fns.push(arc_box);");
+        && fns_inserted;
     if !fns_cloned {
         notes.push("referenced registered functions' Arcs are not cloned into ModuleData".into());
     }
@@ -845,7 +997,7 @@ fn lifetime(repo: &Path) -> Result<String, String> {
     }
     out.push_str("-/\nimport RotoV.Model.Lifetime\nnamespace RotoV.Gen.Lifetime\nopen RotoV.Lifetime\n\n");
     out.push_str(&format!(
-        "def facts : Facts :=\n  {{ moduleFields := [{}]\n    handleHoldsArc := {}\n    constsCloned := {}\n    fnsCloned := {}\n    freeSites := [{}]\n    closureKeepsArc := {}\n    testHoldsHandle := {}\n    dataHolders := [{}] }}\n",
+        "def facts : Facts :=\n  {{ moduleFields := [{}]\n    handleHoldsArc := {}\n    constsCloned := {}\n    fnsCloned := {}\n    freeSites := [{}]\n    closureKeepsArc := {}\n    testHoldsHandle := {}\n    dataHolders := [{}]\n    constDrop := [{}]\n    fnsKeep := .{} }}\n",
         lean_fields.iter().map(|f| format!(".{f}")).collect::<Vec<_>>().join(", "),
         b(handle_holds),
         b(consts_cloned),
@@ -854,6 +1006,8 @@ fn lifetime(repo: &Path) -> Result<String, String> {
         b(closure_keeps),
         b(test_holds),
         holders.iter().map(|f| format!(".{f}")).collect::<Vec<_>>().join(", "),
+        const_drop.iter().map(|(g, a)| format!("(.{g}, .{a})")).collect::<Vec<_>>().join(", "),
+        fns_keep,
     ));
     out.push_str("\nend RotoV.Gen.Lifetime\n");
     Ok(out)
